@@ -208,6 +208,108 @@ theorem connectedComponents_total (nv : Nat) (idx : List Tri) (h : inBounds nv i
 example : ∃ cc, computeCC 6 [⟨0,1,2⟩, ⟨3,4,5⟩, ⟨2,1,0⟩] = some cc ∧ cc.faceColors = [0, 1, 0] ∧ cc.ranges = [0, 2, 3] ∧
     cc.groupedFaces = [0, 2, 1] := ⟨_, rfl, by decide, by decide, by decide⟩
 
+/-- every state of a history is well formed -/
+theorem history_wf (dim3 : Bool) (vs : List V) (idx : List Tri) (f : Flags) (ops : List (Op V N)) (s0 s : Mesh V N)
+    (h0 : withFlags dim3 vs idx f = .ok s0) (h : run dim3 s0 ops = some s) : WF s := by
+  have hw0 := withFlags_wellFormed dim3 vs idx f s0 h0
+  clear h0
+  induction ops generalizing s0 with
+  | nil => simp only [run, Option.some.injEq] at h; subst h; exact hw0
+  | cons op ops ih =>
+    simp only [run] at h
+    split at h
+    · cases h
+    · rename_i s1 hs
+      apply ih s1 h
+      cases op with
+      | setFlags f' =>
+        simp only [step, Option.map_eq_some_iff] at hs
+        obtain ⟨⟨s2, r⟩, h1, rfl⟩ := hs
+        obtain ⟨s3, r3, h3, w3⟩ := setFlags_no_panic dim3 s0 f' hw0
+        rw [h1] at h3; cases h3; exact w3
+      | reverse =>
+        obtain ⟨s3, h3, w3⟩ := reverse_no_panic dim3 s0 hw0
+        simp only [step] at hs
+        rw [hs] at h3; cases h3; exact w3
+      | append rhs => exact withFlags_wellFormed dim3 _ _ _ s1 (append_eq_some hs)
+      | transform fV fN =>
+        obtain ⟨s3, h3, w3⟩ := transformVertices_no_panic fV fN s0 hw0
+        simp only [step] at hs
+        rw [hs] at h3; cases h3; exact w3
+
+/-- **no history panics**, except through `append` (which unwraps `EmptyIndices` when both meshes are empty): any sequence of
+`set_flags`, `reverse`, `transform_vertices` on a mesh returned by `with_flags` runs to completion -/
+theorem history_no_panic (dim3 : Bool) (vs : List V) (idx : List Tri) (f : Flags) (ops : List (Op V N)) (s0 : Mesh V N)
+    (h0 : withFlags dim3 vs idx f = .ok s0) (hna : ∀ op ∈ ops, ∀ rhs, op ≠ .append rhs) :
+    ∃ s, run dim3 s0 ops = some s := by
+  have hw0 := withFlags_wellFormed dim3 vs idx f s0 h0
+  clear h0
+  induction ops generalizing s0 with
+  | nil => exact ⟨s0, rfl⟩
+  | cons op ops ih =>
+    have hna' : ∀ o ∈ ops, ∀ rhs, o ≠ .append rhs := fun o ho => hna o (List.mem_cons_of_mem _ ho)
+    simp only [run]
+    cases op with
+    | setFlags f' =>
+      obtain ⟨s3, r3, h3, w3⟩ := setFlags_no_panic dim3 s0 f' hw0
+      simp only [step, h3, Option.map_some]
+      exact ih s3 hna' w3
+    | reverse =>
+      obtain ⟨s3, h3, w3⟩ := reverse_no_panic dim3 s0 hw0
+      simp only [step, h3]
+      exact ih s3 hna' w3
+    | append rhs => exact absurd rfl (hna _ List.mem_cons_self rhs)
+    | transform fV fN =>
+      obtain ⟨s3, h3, w3⟩ := transformVertices_no_panic fV fN s0 hw0
+      simp only [step, h3]
+      exact ih s3 hna' w3
+
+/-- `DELETE_BAD_TOPOLOGY_TRIANGLES` stays enforced along any history: while the flag is set, the index buffer is a
+fixpoint of `delete_bad_topology_triangles` -/
+theorem history_cleanBad (dim3 : Bool) (vs : List V) (idx : List Tri) (f : Flags) (ops : List (Op V N)) (s0 s : Mesh V N)
+    (h0 : withFlags dim3 vs idx f = .ok s0) (h : run dim3 s0 ops = some s) : CleanBad s := by
+  have hc0 : CleanBad s0 := withFlags_cleanBad' h0
+  clear h0
+  induction ops generalizing s0 with
+  | nil => simp only [run, Option.some.injEq] at h; subst h; exact hc0
+  | cons op ops ih =>
+    simp only [run] at h
+    split at h
+    · cases h
+    · rename_i s1 hs
+      apply ih s1 h
+      cases op with
+      | setFlags f' =>
+        simp only [step, Option.map_eq_some_iff] at hs
+        obtain ⟨⟨s2, r⟩, h1, rfl⟩ := hs
+        exact setFlags_cleanBad' hc0 h1
+      | reverse => exact reverse_cleanBad' hc0 hs
+      | append rhs => exact withFlags_cleanBad' (append_eq_some hs)
+      | transform fV fN => exact transformVertices_cleanBad' hc0 hs
+
+/-- **a user-level consequence**: as long as `DELETE_BAD_TOPOLOGY_TRIANGLES` is set, the half-edge topology is available
+after every operation of any history (fixed code) -/
+theorem history_topology_present (dim3 : Bool) (hl : dim3 = true → LawfulGeo V N) (vs : List V) (idx : List Tri) (f : Flags)
+    (ops : List (Op V N)) (hops : ∀ op ∈ ops, OpLawful op) (s0 s : Mesh V N)
+    (h0 : withFlags dim3 vs idx f = .ok s0) (h : run dim3 s0 ops = some s) (hd : s.flags.delBad = true) :
+    s.topology.isSome = true := by
+  have hc := history_coherent dim3 hl vs idx f ops hops s0 s h0 h
+  have hw := history_wf dim3 vs idx f ops s0 s h0 h
+  have hb := history_cleanBad dim3 vs idx f ops s0 s h0 h hd
+  unfold Coherent at hc
+  simp only [Mesh.derived, derive, Derived.mk.injEq] at hc
+  rw [hc.2.1]
+  have htf : s.flags.topoFamily = true := by simp [Flags.topoFamily, hd]
+  simp only [htf, if_true]
+  unfold topoOf
+  have hne := computeTopology_deleteBad_no_err s.vertices.length s.indices
+  rw [hb] at hne
+  have hnp := computeTopology_no_panic hw
+  cases hct : computeTopology s.vertices.length s.indices with
+  | panic => exact absurd hct hnp
+  | err e => exact absurd hct (hne e)
+  | ok t => rfl
+
 /-! ## "what a fresh build would give" is well defined -/
 
 /-- the fixes do not change `TriMesh::with_flags`: as written and fixed, it builds the same mesh -/
@@ -224,6 +326,17 @@ theorem fresh_idem_of_stable (dim3 : Bool) (vs : List V) (idx : List Tri) (f : F
   coherent_unique (withFlags_coherent dim3 _ _ f s2 h2) (withFlags_coherent dim3 _ _ f s h) hv hi
     ((withFlags_flags h2).trans (withFlags_flags h).symm)
     (by rw [(withFlags_qbvh h2).1, (withFlags_qbvh h).1, hv, hi])
+
+/-- **`Coherent` is the property's "equals what a fresh build gives"**: whenever a fresh `with_flags` on the current
+buffers and flags leaves the buffers as they are, a mesh is coherent iff its derived data are those of that fresh mesh. -/
+theorem coherent_iff_fresh (dim3 : Bool) (s fresh : Mesh V N)
+    (h : withFlags dim3 s.vertices s.indices s.flags = .ok fresh)
+    (hv : fresh.vertices = s.vertices) (hi : fresh.indices = s.indices) :
+    Coherent dim3 s ↔ s.derived = fresh.derived := by
+  have hc := withFlags_coherent dim3 _ _ _ fresh h
+  have hf := withFlags_flags h
+  unfold Coherent at hc ⊢
+  rw [hc, hv, hi, hf]
 
 /-- without `MERGE_DUPLICATE_VERTICES | DELETE_DEGENERATE_TRIANGLES | DELETE_DUPLICATE_TRIANGLES` the buffers of a
 fresh mesh are always stable (`delete_bad_topology_triangles` is idempotent): the core of `with_flags`
